@@ -323,39 +323,13 @@ pub fn job_c01(out_dir: &str, tier: &str, seed: u64) {
     // (5) buffer life cycle, systematically: write 1 ends inside token A (tail buffered), write 2 completes A and ends deep
     // inside a long token B (buffer partly consumed, long remainder kept), write 3 completes B and ends in text (buffer
     // emptied), write 4 ends inside token C (buffered again), write 5 the rest; all within the preallocated buffer
-    for (bi, b_kind) in ["name", "attr", "comment"].iter().enumerate() {
-        for blen in [140usize, 200, 400] {
-            let a: &[u8] = b"<a href=x id=first>";
-            let mut btok = Vec::new();
-            match *b_kind {
-                "name" => { btok.push(b'<'); for j in 0..blen { btok.push(b'a' + (j % 26) as u8); } btok.extend_from_slice(b" k=v>"); }
-                "attr" => { btok.extend_from_slice(b"<img alt=\""); for j in 0..blen { btok.push(b'a' + (j % 26) as u8); } btok.extend_from_slice(b"\">"); }
-                _ => { btok.extend_from_slice(b"<!--"); for j in 0..blen { btok.push(b'k' + (j % 5) as u8); } btok.extend_from_slice(b"-->"); }
-            }
-            let c: &[u8] = b"<b class=z data-q='r'>";
-            let mut input = b"pre ".to_vec();
-            let a0 = input.len(); input.extend_from_slice(a);
-            input.extend_from_slice(b"t1");
-            let b0 = input.len(); input.extend_from_slice(&btok);
-            let t0 = input.len(); input.extend_from_slice(b" some text here ");
-            let c0 = input.len(); input.extend_from_slice(c);
-            input.extend_from_slice(b"end</b></a>");
-            for (hi, hs_idx) in [0usize, 1, 2, 6, 12, 5].iter().enumerate() {
-                let (_, hs) = &sets[*hs_idx % sets.len()];
-                for prealloc in [1024usize, 0] {
-                    if prealloc == 0 && (hi + bi) % 2 == 1 { continue; }
-                    let cfg = gen::merge(hs, &json!({"strict": false, "enc": "utf-8", "mem": {"prealloc": prealloc}}));
-                    for c1 in [a0 + 1, a0 + 3, a0 + a.len() - 1] {
-                        for c2 in [b0 + 130, b0 + btok.len() / 2 + 66, b0 + btok.len() - 1] {
-                            for c3 in [t0, t0 + 5] {
-                                for c4 in [c0 + 1, c0 + 2, c0 + 9, c0 + c.len() - 1] {
-                                    if c2 >= t0 { continue; }
-                                    emit(&mut sh, &cfg, &input, &[c1, c2, c3, c4], &mut n);
-                                }
-                            }
-                        }
-                    }
-                }
+    for (bi, (input, scheds)) in gen::buffer_cycle_cases().iter().enumerate() {
+        for (hi, hs_idx) in [0usize, 1, 2, 6, 12, 5].iter().enumerate() {
+            let (_, hs) = &sets[*hs_idx % sets.len()];
+            for prealloc in [1024usize, 0] {
+                if prealloc == 0 && (hi + bi) % 2 == 1 { continue; }
+                let cfg = gen::merge(hs, &json!({"strict": false, "enc": "utf-8", "mem": {"prealloc": prealloc}}));
+                for cuts in scheds { emit(&mut sh, &cfg, input, cuts, &mut n); }
             }
         }
     }
